@@ -51,9 +51,10 @@ TEXT = {
                       "lexicographic order (C11_lt_iff_lex); every in-range history of extend/rc/set/min_rc preserves the invariant and spells "
                       "the string computed by the same history on lists (C11_history, by induction over the history), hence two routes to "
                       "the same string end in the same storage word (C11_routes_agree). The derived ==/cmp/Hash are functions of that word. "
-                      "Histories including set_slice_mut and the other constructors are executed against the crate on every run.",
+                      "set_slice_mut is part of the history; C11_constructors: from_bytes, from_u64 and from_ascii establish the invariant and "
+                      "agree on the same string. All of it is executed against the crate on every run.",
         "design_ref": "DESIGN.md section 6, C11",
-        "level_note": COMMON_NOTE + "Hash/Eq/Ord are derived: modelled as functions of the storage integer. Partial: set_slice_mut not yet in C11_history.",
+        "level_note": COMMON_NOTE + "Hash/Eq/Ord are derived: modelled as functions of the storage integer.",
         "technique": "Lean 4 proof (invariant by induction over operation histories + order embedding) + differential correspondence",
     },
     "C12": {
@@ -143,10 +144,12 @@ TEXT = {
                       "over exactly those k-mers' payloads, left path first. Proved by: a 'sealed' invariant over the well-founded walk "
                       "(ids), refinement of the code-shaped walk to it, and string algebra for the two folds of build_node. The recorded-steps "
                       "clause in bit form is an executable predicate on the crate's nodes; the model is diffed verbatim with the crate for all "
-                      "three entry points.",
+                      "three entry points. C01_from_reads: for every read set, K >= 4, both summarizers, every memory budget and every hash order, "
+                      "filter -> prune -> compress never panics and the nodes' canonical k-mers are a permutation of the accepted k-mers.",
         "design_ref": "DESIGN.md section 6, C01",
-        "level_note": COMMON_NOTE + "The hash map's index order is an input (observed). ExtSym of tables produced by filter_kmers is assumed here (it is C05's "
-                      "exts_are_flanks, not yet proved) and checked executably on every generated table.",
+        "level_note": COMMON_NOTE + "The hash map's index order is an input (observed; the theorems hold for every order). C01_from_reads discharges the table "
+                      "hypotheses for every read set with empty boundary extensions (C05_table_wf: filter output is well-formed and reciprocal, also "
+                      "after remove_censored_exts); with caller-supplied boundary extensions reciprocity is a hypothesis, checked executably.",
         "technique": "Lean 4 proof (invariant over a well-founded walk, refinement, list algebra of sequence assembly) + differential correspondence with executable predicates",
     },
     "C02": {
@@ -154,6 +157,7 @@ TEXT = {
                       "iff they are connected by a chain of good links (sole extension on both facing sides, distinct, non-palindromic when "
                       "unstranded, join accepted) - nodes are exactly the connected components, hence maximal and branch-free. Rests on the id-level "
                       "components theorem ('sealed' invariant), reciprocity of links from reciprocity of extensions, and C01's node assembly. "
+                      "C02_from_reads: the same for the table built from any read set (hypotheses discharged by C05_table_wf). "
                       "Independently, components recomputed from the table by label propagation are compared with the crate's nodes.",
         "design_ref": "DESIGN.md section 6, C02",
         "level_note": COMMON_NOTE + "Symmetric join is a hypothesis (both shipped specs satisfy it).",
@@ -167,7 +171,10 @@ TEXT = {
                       "distinct k-mer ascending. Corollary C05_pass_independent. Proved via: the planned ranges enumerate buckets 0..255 in order "
                       "(induction over the while loop), the insertion sort is stable and sorting, run grouping of a sorted list = distinct keys with "
                       "their observations, buckets are monotone in the key order, strictly ascending lists with equal members are equal. The same "
-                      "reference is evaluated on the crate's output while the hook sweeps the real pass count over 1..256.",
+                      "reference is evaluated on the crate's output while the hook sweeps the real pass count over 1..256. C05_exts_are_flanks: an "
+                      "entry records base b on side d iff its k-mer occurs in a read (either strand when unstranded) with b next to it there; "
+                      "C05_table_wf: the table (also pruned, in any order) has distinct canonical keys of length K and reciprocal extensions - "
+                      "the hypotheses of C01/C02/C09, proved from the reads via an occurrence relation closed under reverse complement.",
         "design_ref": "DESIGN.md section 6, C05",
         "level_note": COMMON_NOTE + "sort_by_key is modelled as a stable insertion sort, group_by as maximal runs (contracts). Uses the verif_hooks bytes-per-unit override and pass counter.",
         "technique": "Lean 4 proof (algorithm = reference grouping, for all inputs and budgets) + differential correspondence with executable reference over all pass counts",
